@@ -96,12 +96,12 @@ Restore(cls, ps, d) ==
 
 Deliverable(i) == wire \cup Attacker(wire, st[i])
 
-Next ==
-  \/ \E cls \in ClassSet, ps \in ParamSets, pw \in Passwords, ids \in IdPairs : New(cls, ps, pw, ids)
-  \/ \E i \in Inst : \E x \in ScalarChoices(st[i].ps.grp) : Start(i, x)
-  \/ \E i \in Inst : \E m \in Deliverable(i) : Finish(i, m)
-  \/ \E i \in Inst : Serialize(i)
-  \/ \E d \in disk : \E cls \in ClassSet, ps \in ParamSets : Restore(cls, ps, d)
+DoNew       == \E cls \in ClassSet, ps \in ParamSets, pw \in Passwords, ids \in IdPairs : New(cls, ps, pw, ids)
+DoStart     == \E i \in Inst : \E x \in ScalarChoices(st[i].ps.grp) : Start(i, x)
+DoFinish    == \E i \in Inst : \E m \in Deliverable(i) : Finish(i, m)
+DoSerialize == \E i \in Inst : Serialize(i)
+DoRestore   == \E d \in disk : \E cls \in ClassSet, ps \in ParamSets : Restore(cls, ps, d)
+Next == DoNew \/ DoStart \/ DoFinish \/ DoSerialize \/ DoRestore
 
 Spec == Init /\ [][Next]_vars
 
@@ -128,10 +128,23 @@ Agreement ==
           ri    == aux[i].res1
           rj    == aux[j].res1
       IN IF st[i].out = st[j].out
-         THEN ri = Err("ReflectionThwarted") /\ rj = Err("ReflectionThwarted")
+         THEN IF GRefusesIdentity(g) /\ st[i].out = idEnc
+              THEN IsErr(ri) /\ IsErr(rj)            \* the identity is refused before the reflection test
+              ELSE ri = Err("ReflectionThwarted") /\ rj = Err("ReflectionThwarted")
          ELSE /\ (GRefusesIdentity(g) /\ st[j].out = idEnc) => IsErr(ri)
               /\ (~GRefusesIdentity(g) \/ (st[i].out # idEnc /\ st[j].out # idEnc))
                     => (IsKey(ri) /\ IsKey(rj) /\ ri = rj)
+
+(* vacuity witnesses: each is the NEGATION of "the interesting case occurs"; *)
+(* a model run is expected to VIOLATE it (the check fails if it does not)   *)
+AgreedPair(i, j) == i # j /\ SameConfig(i, j) /\ FirstFinishOn(i, j) /\ FirstFinishOn(j, i)
+                    /\ IsKey(aux[i].res1) /\ aux[i].res1 = aux[j].res1
+NoWitnessAgreement == ~\E i, j \in Inst : AgreedPair(i, j)
+NoWitnessAgreementAfterRestore == ~\E i, j \in Inst : AgreedPair(i, j) /\ st[i].restored
+NoWitnessReflection == ~\E i \in Inst : aux[i].res1 = Err("ReflectionThwarted")
+NoWitnessIdentityRefused ==
+  ~\E i, j \in Inst : i # j /\ SameConfig(i, j) /\ FirstFinishOn(i, j) /\ GRefusesIdentity(st[i].ps.grp)
+                       /\ st[j].out = GEnc(st[j].ps.grp, GIdentity(st[j].ps.grp)) /\ IsErr(aux[i].res1)
 
 (* C02: two ends with equal keys had identical views, and each received     *)
 (* exactly the bytes the other sent.  UsedParamsAgree: same group, same     *)
